@@ -326,10 +326,10 @@ func (in *c20PkInst) canRecv(space int) bool {
 
 // start states: reached through the ops below on the real code (judged by the same oracle).
 var c20PkStarts = [][]explore.Op{
-	0: {{N: "init", A: 1}, {N: "crypto", A: 0}},                                                                                                                     // resumed session: Initial + 0-RTT keys, ClientHello queued
-	1: {{N: "init", A: 0}, {N: "crypto", A: 0}},                                                                                                                     // fresh handshake: Initial keys only, ClientHello queued
-	2: {{N: "init", A: 1}, {N: "crypto", A: 0}, {N: "wake"}, {N: "recv", A: 0}, {N: "ack", A: 0, B: 0}, {N: "keys"}},                                                // + ServerHello: Handshake keys, 0-RTT keys still there, Initial ACK queued
-	3: {{N: "init", A: 1}, {N: "crypto", A: 0}, {N: "wake"}, {N: "recv", A: 0}, {N: "ack", A: 0, B: 0}, {N: "keys"}, {N: "recv", A: 1}, {N: "keys"}, {N: "crypto", A: 1}, {N: "wake"}}, // handshake complete: 1-RTT keys, client Finished in flight, not confirmed
+	0: {{N: "init", A: 1}, {N: "crypto", A: 0}},                                                                                                                                                                             // resumed session: Initial + 0-RTT keys, ClientHello queued
+	1: {{N: "init", A: 0}, {N: "crypto", A: 0}},                                                                                                                                                                             // fresh handshake: Initial keys only, ClientHello queued
+	2: {{N: "init", A: 1}, {N: "crypto", A: 0}, {N: "wake"}, {N: "recv", A: 0}, {N: "ack", A: 0, B: 0}, {N: "keys"}},                                                                                                        // + ServerHello: Handshake keys, 0-RTT keys still there, Initial ACK queued
+	3: {{N: "init", A: 1}, {N: "crypto", A: 0}, {N: "wake"}, {N: "recv", A: 0}, {N: "ack", A: 0, B: 0}, {N: "keys"}, {N: "recv", A: 1}, {N: "keys"}, {N: "crypto", A: 1}, {N: "wake"}},                                      // handshake complete: 1-RTT keys, client Finished in flight, not confirmed
 	4: {{N: "init", A: 1}, {N: "crypto", A: 0}, {N: "wake"}, {N: "recv", A: 0}, {N: "ack", A: 0, B: 0}, {N: "keys"}, {N: "recv", A: 1}, {N: "keys"}, {N: "crypto", A: 1}, {N: "wake"}, {N: "ack", A: 1, B: 0}, {N: "keys"}}, // handshake confirmed
 }
 
